@@ -62,7 +62,7 @@ FUNCTIONS = [
 
 # regenerate with `python -m translator.gen_noop --print` after a reviewed change of the repo
 FINGERPRINTS = {
-    "stepup/core/startup.py:resume_from_db": ("f73937e0ee9e422b",),
+    "stepup/core/startup.py:resume_from_db": ("6ad066191b0d5512", "f73937e0ee9e422b",),  # first: with log-only statements dropped (astutil._DropLogging)
     "stepup/core/startup.py:reset_interrupted_steps": ("ed62a94f9b3c60bd",),
     # first shape: the value seen at startup is stored (fix cc92e6e); second: it is not (A->B->A missed)
     "stepup/core/startup.py:rescan_env_vars": ("93d6fadf2542d1bc", "9974fa94fec49723"),
@@ -77,11 +77,11 @@ FINGERPRINTS = {
     # C04_model_matches_generated_facts by name.
     "stepup/core/executor.py:Executor.validate_dynamic_job": ("66c3a31377b03d64", "c64f8ccfa4c864d5", "5c3f511f7670d82c"),
     "stepup/core/executor.py:Executor._reset_step_to_pending": ("d191ea381b11a367",),
-    "stepup/core/workflow.py:Workflow.mark_step_pending": ("a8064bde6c65d522",),
+    "stepup/core/workflow.py:Workflow.mark_step_pending": ("7b5bac766d7f38c3", "a8064bde6c65d522",),  # first: with log-only statements dropped (astutil._DropLogging)
     "stepup/core/workflow.py:Workflow.mark_consuming_steps_pending": ("ea8f95325e91cd94",),
-    "stepup/core/workflow.py:Workflow.mark_file_outdated": ("3e5de8360a06d014",),
+    "stepup/core/workflow.py:Workflow.mark_file_outdated": ("80624a1262d8eb0b", "3e5de8360a06d014",),  # first: with log-only statements dropped (astutil._DropLogging)
     "stepup/core/workflow.py:Workflow.handle_updated_file": ("b5eb3aa537d4511a",),
-    "stepup/core/workflow.py:Workflow.handle_deleted_file": ("242340e02edfca74",),
+    "stepup/core/workflow.py:Workflow.handle_deleted_file": ("86294ee3a09c77fc", "242340e02edfca74",),  # first: with log-only statements dropped (astutil._DropLogging)
     "stepup/core/workflow.py:Workflow.persist_nglob_matches": ("9194b56c3f705a07",),
     "stepup/core/workflow.py:Workflow.steps": ("f80b6ef0d1c623f5",),
     "stepup/core/finalize.py:revert_optional_steps": ("125f68043491a8fd",),
